@@ -30,6 +30,7 @@ const (
 	locBox
 	locObj
 	locGlobal
+	locConst // immutable local struct copy: Ref holds the value term
 )
 
 type pathStep struct {
@@ -186,7 +187,9 @@ func (fc *FnCtx) havocComp(comp, sort, frontier string) string {
 	n := fc.vc.fresh("H."+comp, sort)
 	fc.cur.sorts[comp] = sort
 	fc.cur.heap[comp] = n
-	fc.vc.assume(fc.cur.reach, fc.closure(n, comp, frontier))
+	if !fc.noClosure {
+		fc.vc.assume(fc.cur.reach, fc.closure(n, comp, frontier))
+	}
 	return n
 }
 
@@ -246,6 +249,9 @@ func (fc *FnCtx) fieldLoc(base Val, idx int) (*Loc, error) {
 	f := sst.Field(idx)
 	if isGhostStruct(st) {
 		return nil, fmt.Errorf("field access into ghost-modelled struct %s", st)
+	}
+	if base.Loc != nil && base.Loc.Kind == locConst && len(base.Loc.Path) == 0 {
+		return &Loc{Kind: locConst, Ref: base.Loc.Ref, Path: []pathStep{{st, idx}}, Typ: f.Type()}, nil
 	}
 	if base.Loc != nil && base.Loc.Kind != locObj {
 		l := *base.Loc
@@ -323,6 +329,8 @@ func (fc *FnCtx) loadAt(st *State, l *Loc) (string, error) {
 	case locGlobal:
 		c := fc.compAt(st, l.Comp, fc.sortStr(l.rootType()))
 		return fc.projPath(c, l.Path), nil
+	case locConst:
+		return fc.projPath(l.Ref, l.Path), nil
 	}
 	return "", fmt.Errorf("bad loc")
 }
@@ -434,6 +442,9 @@ func (fc *FnCtx) wellTyped(v string, t types.Type, alloc string, depth int) stri
 	switch u := t.Underlying().(type) {
 	case *types.Basic:
 		if u.Info()&types.IsInteger != 0 {
+			if depth > 0 && (u.Kind() == types.Int || u.Kind() == types.Int64) {
+				return "true" // int/int64 are mathematical: their range is never needed for stored fields
+			}
 			return intRange(t, v)
 		}
 		return "true"
